@@ -1,14 +1,20 @@
 #!/bin/bash
 # tools/sweep.sh <tier> <seeds...> : run every registered check at the given seeds; print one line per run.
+# SWEEP_SKIP="C01 C02" leaves checks out.
 cd "$(dirname "$0")/.."
 TIER=$1; shift
 export VERIF_OUT=$(mktemp -d /dev/shm/sweep_XXXX)
 for seed in "$@"; do
   for id in $(jq -r '.checks[].property_id' MANIFEST.json); do
+    case " $SWEEP_SKIP " in *" $id "*) continue;; esac
     s=$(date +%s)
     out=$(VERIF_SEED=$seed ./check $id --tier $TIER 2>&1 | grep -E "^\[C|VIOLATION|HARNESS|KNOWN|  clause" | cut -c1-300)
     echo "seed=$seed $(echo "$out" | tail -1) t=$(( $(date +%s) - s ))s"
     echo "$out" | grep -E "VIOLATION|HARNESS|clause" | head -5
   done
 done
+# keep the replay files of anything that was reported (outside /verif; not needed by any registered command)
+if [ -d "$VERIF_OUT/replays" ] && [ -n "$(ls -A "$VERIF_OUT/replays" 2>/dev/null)" ]; then
+  keep=/var/tmp/sweep_replays_$$; mkdir -p $keep; cp -r "$VERIF_OUT/replays/." $keep/; echo "replays kept in $keep"
+fi
 rm -rf "$VERIF_OUT"
